@@ -302,3 +302,134 @@ def c06(tier, seed):
 
 
 RUN["C06"] = c06
+
+
+# --------------------------------------------------------------------------- C11
+
+C11_GP = [[], [1], [1, 2], [3], [1, 4], [3, 5]]
+SK = {"pers": "p", "event": "e", "none": "zz"}
+DK = {"trig": "ti", "nontrig": "i", "none": "zz2"}
+
+
+def c11_specs():
+    singles = [[(sk, dk)] for sk in SK for dk in DK]
+    multis = [[("pers", "nontrig"), ("event", "trig")], [("pers", "trig"), ("none", "trig")], [("event", "nontrig"), ("pers", "none")],
+              [("none", "none"), ("pers", "nontrig")], [("pers", "nontrig"), ("event", "nontrig"), ("pers", "trig")]]
+    for sg in C11_GP:
+        for dg in C11_GP:
+            for pairs in singles + multis:
+                for shift in (0, 1, 2):
+                    for weak in (False, True):
+                        for init in (False, True):
+                            for any_ in (False, True):
+                                yield {"sg": sg, "dg": dg, "pairs": [{"sk": a, "dk": b} for a, b in pairs], "shift": shift, "weak": weak,
+                                       "init": init, "any": any_}
+
+
+def _obs(ctx):
+    seq = {}
+    for e in ctx.trace:
+        if e["k"] == "SB":
+            seq.setdefault(e["s"], []).append([e["t"], e["inp"]])
+    return seq
+
+
+def _c11_row(spec):
+    from harness import behave, drive
+    from mosaik.exceptions import ScenarioError
+
+    scn = {"sims": [{"sid": "Sa", "type": "hybrid", "gpath": spec["sg"]}, {"sid": "Sb", "type": "hybrid", "gpath": spec["dg"], "any_inputs": spec["any"]}],
+           "conns": [{"src": "Sa", "dst": "Sb", "sa": "p2", "da": "i2"}], "until": 2}
+    res = {}
+
+    def attempt(ctx, only=None, res=res):
+        w = ctx.world
+        src, dst = ctx.ents["Sa"][0], ctx.ents["Sb"][0]
+        pairs = [(SK[p["sk"]], DK[p["dk"]]) for i, p in enumerate(spec["pairs"]) if only is None or (i + 1) in only]
+        if not pairs:
+            return
+        kw = {}
+        if spec["shift"]:
+            kw["time_shifted"] = spec["shift"] if spec["shift"] > 1 else True
+        if spec["weak"]:
+            kw["weak"] = True
+        if spec["init"]:
+            kw["initial_data"] = {sa: "init." + sa for sa, _ in pairs}
+        try:
+            w.connect(src, dst, *pairs, **kw)
+            res["out"], res["named"] = "ok", []
+        except ScenarioError as e:
+            msg = str(e)
+            res["out"] = "ScenarioError"
+            res["named"] = [i + 1 for i, (sa, da) in enumerate(pairs) if f"connecting {src.full_id}.{sa} to {dst.full_id}.{da}:" in msg]
+        except BaseException as e:  # noqa: BLE001
+            res["out"], res["named"], res["msg"] = "other", [], f"{type(e).__name__}: {e}"[:200]
+
+    beh = lambda: behave.RandomBehaviour(0, p_event=0.5)  # noqa: E731
+    a = drive.execute(scn, beh(), behave.FifoPolicy(), hooks=attempt)
+    same = True
+    if res.get("out") == "ScenarioError":
+        # the same call with only the pairs that were NOT rejected must behave identically
+        # (an error that names no pair - weak connection outside a group - rejects every pair of the call)
+        keep = [i + 1 for i in range(len(spec["pairs"])) if (i + 1) not in res["named"]] if res["named"] else []
+        b = drive.execute(scn, beh(), behave.FifoPolicy(), hooks=lambda ctx: attempt(ctx, only=keep, res={}))
+        same = a.outcome["r"] == b.outcome["r"] and _obs(a) == _obs(b)
+    row = dict(spec)
+    row.update({"out": res.get("out", "other"), "named": res.get("named", []), "sameobs": same, "msg": res.get("msg", "")})
+    return row
+
+
+def _c11_rows(specs):
+    return [_c11_row(s) for s in specs]
+
+
+def _judge_rows(module, tag, rows):
+    out, secs = run_table(module, rows, timeout=3000)
+    pat = re.compile(r'<<"' + tag + r'", (\d+), (\d+), \{(.*)\}\s*>>$', re.S)
+    viol, done, chunks = [], set(), 0
+    for txt in tlc.tuples(out, tag):
+        m = pat.match(txt)
+        if not m:
+            continue
+        done.add(int(m.group(1)))
+        chunks = int(m.group(2))
+        for clause, n in re.findall(r'<<"(\w+)", (\d+)>>', m.group(3)):
+            viol.append((clause, int(n) - 1))
+    if not chunks or done != set(range(1, chunks + 1)):
+        raise tlc.TLCError(module + " did not complete\n" + "\n".join(out.splitlines()[-30:]))
+    return viol, tlc.stats(out), secs
+
+
+def _parallel_rows(fn, specs, chunk=200):
+    import multiprocessing as mp
+
+    chunks = [specs[i:i + chunk] for i in range(0, len(specs), chunk)]
+    with mp.get_context("fork").Pool(min(16, os.cpu_count() or 4)) as pool:
+        return [r for rs in pool.map(fn, chunks) for r in rs]
+
+
+def c11(tier, seed):
+    t0 = time.time()
+    specs = list(c11_specs())
+    rows = _parallel_rows(_c11_rows, specs)
+    viol, st, secs = _judge_rows("ConnectRules", "R11", rows)
+    findings = [checklib.Finding("C11", clause, case={"id": [clause, n], "kind": "c11", "row": rows[n]}, detail=json.dumps(rows[n]), extra={"row": rows[n]})
+                for clause, n in viol]
+    import collections
+
+    cov = {
+        "states": st["distinct"], "transitions": st["generated"], "traces_validated_against_impl": len(rows),
+        "samples": [rows[7], next((r for r in rows if r["out"] == "ScenarioError"), rows[0])],
+        "evaluations": len(rows), "distinct_nontrivial": len(rows),
+        "rule": "cross product of 6x6 placements of source/destination in the group tree (root, [1], [1,2], [3], [1,4], [3,5]: same group, parent/child, "
+                "siblings, cousins) x 9 single attribute pairs (persistent/event/not-an-output x trigger/non-trigger/not-an-input) + 5 multi-pair calls x "
+                "time_shifted in {False, True, 2} x weak x initial data x any_inputs; each row is one real World.connect() call; rejected calls are followed by "
+                "a run whose per-simulator (time, inputs) sequences are compared with the scenario in which only the accepted pairs of the call are connected",
+        "exhaustive": True,
+        "outcomes": dict(collections.Counter(r["out"] for r in rows)),
+        "checker_cmd": "tlc -workers 1 -config ConnectRules.cfg ConnectRules (TRACE_FILE=<rows>)",
+    }
+    return checklib.conclude("C11", tier, seed, findings, cov, t0, ASSUME + ["sibling-group behaviour at run time is judged by the C01 check (sibling_groups directed case, sibling families)"], max_report=3)
+
+
+RUN["C11"] = c11
